@@ -40,7 +40,7 @@ def generate(streams, tier):
         ps = rw.sample([u for u in range(n) if u != v], rw.randint(0, min(3, n - 1)))
         pool.append((v, ps))
     for _ in range(rw.randint(4, 40 if tier == "thorough" else 16)):
-        k = weighted(rw, [("local", 8), ("score_model", 2), ("equivalent", 2), ("wrapper", 1)])
+        k = weighted(rw, [("local", 8), ("score_model", 2), ("equivalent", 2), ("wrapper", 2)])
         if k == "local":
             v, ps = rw.choice(pool)
             ops.append({"op": "local", "score": rw.choice(SCORES), "v": v, "parents": shuffled(rw, ps) if rw.random() < 0.5 else list(ps)})
@@ -49,7 +49,9 @@ def generate(streams, tier):
         elif k == "equivalent":
             ops.append({"op": "equivalent", "score": rw.choice(["bdeu", "bic", "aic"]), "dag": _rand_dag(rw, n), "pick": rw.randrange(1000)})
         else:
-            ops.append({"op": "wrapper", "score": rw.choice(["k2", "bdeu", "bds", "bic"]), "dag": _rand_dag(rw, n)})
+            # the metric wrapper is called repeatedly on the one frame object with varying options
+            ops.append({"op": "wrapper", "score": rw.choice(["k2", "bdeu", "bdeu", "bds", "bic"]), "dag": _rand_dag(rw, n),
+                        "ess": rw.choice([None, None, 1, 2.5, 5, 10, 0.5, 20])})
     return {"world": world, "rows": rows, "declared": declared, "ess": ess, "cache_size": cache_size, "permseed": rw.randrange(2**31), "ops": ops}
 
 
@@ -228,7 +230,11 @@ def execute(case, ctx):
                 d, es = dag_of(op["dag"])
                 if d is None:
                     continue
-                want = sum(ref_local(kind, card, rows, v, [a for a, b in es if b == v], ess) for v in range(n))
+                e_ = ess
+                if op["op"] == "wrapper" and op.get("ess") is not None:
+                    e_ = op["ess"]
+                    ctx.probe("wrapper_option_varied")
+                want = sum(ref_local(kind, card, rows, v, [a for a, b in es if b == v], e_) for v in range(n))
                 # structure prior: uniform (0) except the marginal uniform prior of BDs
                 prior = -(len(es) + n * (n - 1) / 2.0) * math.log(2.0) if kind == "bds" else 0.0
                 want += prior
@@ -239,19 +245,21 @@ def execute(case, ctx):
 
                     kw = {"state_names": sn} if sn is not None else {}
                     if kind in ("bdeu", "bds"):
-                        kw["equivalent_sample_size"] = ess
+                        kw["equivalent_sample_size"] = e_
                     got = float(structure_score(d, df, scoring_method=kind, **kw))
                 ctx.checked += 1
                 locs = sum(float(cached.local_score(names.L(v), [names.L(a) for a, b in es if b == v])) for v in range(n)) + prior
+                if e_ != ess:
+                    locs = got  # the cached scorer was built with the case's sample size
                 if not close(got, locs, atol=1e-8, rtol=1e-9):
                     ctx.fail("decomposable", f"{PROP}:score_not_sum_of_locals:{kind}", {"score": got, "sum_locals": locs, "dag": es})
                 elif not close(got, want, atol=1e-7, rtol=1e-9):
                     unobs = any((counts_table(card, rows, v, [a for a, b in es if b == v]).sum(axis=0) == 0).any() for v in range(n))
                     sig = f"{PROP}:model_score:{kind}"
-                    impl = sum(ref_local("bds_as_implemented", card, rows, v, [a for a, b in es if b == v], ess) for v in range(n)) + prior if kind == "bds" else None
+                    impl = sum(ref_local("bds_as_implemented", card, rows, v, [a for a, b in es if b == v], e_) for v in range(n)) + prior if kind == "bds" else None
                     if kind == "bds" and unobs and close(got, impl, atol=1e-7, rtol=1e-9):
                         sig = f"{PROP}:bds_unobserved_parent_configuration"
-                    ctx.fail("closed_form", sig, {"got": got, "want": want, "dag": es, "ess": ess})
+                    ctx.fail("closed_form", sig, {"got": got, "want": want, "dag": es, "ess": e_})
             elif op["op"] == "equivalent":
                 d, es = dag_of(op["dag"])
                 if d is None or not es:
